@@ -303,6 +303,8 @@ def run(tier: str) -> dict:
     old_path = list(sys.path)
     with D.Scratch() as scratch:
         for pi, pr in enumerate(projects):
+            if rt.HANGS[0] >= 3:
+                break          # the pipeline does not terminate on project after project: enough evidence, do not spend hours
             root = scratch / f"p{pi}"
             root.mkdir()
             I.materialise(root, pr["files"])
